@@ -67,4 +67,24 @@ def endpointCidCheck (r : Res Packet) : Res Packet :=
       | some s => if s.length > maxScidLen then .error .scidLen else .ok (p, rest)
       | none => .ok (p, rest)
 
+/-! ### predicates used in the statements of `QuicProofs.Props.C05PacketHeader` -/
+
+/-- the Version field of a long-header packet, when the first five bytes are present -/
+def versionField (b : List Nat) : Option Nat :=
+  match b with
+  | first :: v0 :: v1 :: v2 :: v3 :: _ =>
+    if first / 128 % 2 = 1 then some (((v0 * 256 + v1) * 256 + v2) * 256 + v3) else none
+  | _ => none
+
+/-- the input is a short-header packet, a Version Negotiation packet or a version-1 packet -/
+def KnownVersion (b : List Nat) : Prop := ∀ v, versionField b = some v → v = 0 ∨ v = 1
+
+/-- the two places where the code's decoder and the RFC disagree: a connection ID longer than 20
+    bytes in a Version Negotiation packet (the code rejects it, Figure 14 allows 0..2040 bits) or in a
+    version-1 packet with the Initial type bits (the code accepts it, §17.2 says MUST drop) -/
+def CidDeviation (b : List Nat) : Prop :=
+  ∃ first version dcid scid body,
+    Rfc.PacketHeader.invariants b = some (first, version, dcid, scid, body) ∧
+    (20 < dcid.length ∨ 20 < scid.length) ∧ (version = 0 ∨ (version = 1 ∧ first / 16 % 4 = 0))
+
 end Quic.Codec.PacketHeader
